@@ -336,12 +336,15 @@ class State:
         if not has_quant(c):
             self.solver.add(c)
 
-    def consistent(self, timeout_ms=1500) -> bool:
+    def consistent(self, timeout_ms=1500, full=False) -> bool:
+        """Vacuity guard.  Cheap form: the quantifier-free part of the path condition; full form: everything."""
+        if not full:
+            return smt.guarded_check(self.solver, self.cfg.get("branch_timeout_ms", 2000)) != z3.unsat
         s = z3.Solver()
         s.set("timeout", timeout_ms)
         for a in self.pc:
             s.add(a)
-        return s.check() != z3.unsat
+        return smt.guarded_check(s, timeout_ms) != z3.unsat
 
     def assume_wt(self, v: SV):
         tt = T.strip_opt(v.ty)
@@ -364,7 +367,7 @@ class State:
             self.sadd(g)
 
     def feasible(self, c) -> bool:
-        r = self.solver.check(c)
+        r = smt.guarded_check(self.solver, self.cfg.get("branch_timeout_ms", 2000), c)
         return r != z3.unsat
 
     def choose(self, n, conds=None) -> int:
@@ -488,7 +491,7 @@ def enum_value_sv(ci: ClassInfo, name) -> SV:
 
 # ------------------------------------------------------------------------------------------------ interpreter
 PURE_BUILTINS = {"len", "isinstance", "int", "str", "bool", "float", "min", "max", "abs", "old", "implies", "iff",
-                 "forall", "exists", "forall_obj", "exists_obj", "type", "hasattr", "getattr", "IPv4Address", "ite", "bit", "fresh", "seq", "epoch", "unchanged", "n_events", "plen", "in_net", "valid_mask", "dict_key", "dict_val", "event_kind", "event_arg", "ev"}
+                 "forall", "exists", "forall_obj", "exists_obj", "type", "hasattr", "getattr", "IPv4Address", "ite", "bit", "fresh", "seq", "epoch", "unchanged", "n_events", "plen", "in_net", "valid_mask", "dict_key", "dict_val", "event_kind", "event_arg", "ev", "same_dict"}
 
 
 class Interp:
